@@ -422,8 +422,25 @@ func (v *Vocab) envBits(items []Item) int {
 	return len(feats) + len(atoms)
 }
 
+// fixed sheets that are always part of the run: witnesses of the listed known findings
+func witnesses() []genInput {
+	color := func(v string) []Decl { return []Decl{{P: "color", V: []string{v}, Sp: []int{1}}} }
+	w := []genInput{
+		// nesting under a list of mixed specificity, lowered for a target without :is()
+		{ID: "witness-0", Items: []Item{
+			{K: "rule", Path: []PathEl{selEl("p,#s"), selEl(".a")}, Decls: color("red")},
+			{K: "rule", Path: []PathEl{selEl("#s")}, Decls: color("blue")}}},
+	}
+	for i := range w {
+		for k := range w[i].Items {
+			w[i].Items[k].fix()
+		}
+	}
+	return w
+}
+
 func (g *gen) Sheets(n int, maxBits int) []genInput {
-	var out []genInput
+	out := witnesses()
 	for i := 0; len(out) < n && i < n*20; i++ {
 		fam := families[i%len(families)]
 		items := g.Sheet(fam)
